@@ -154,8 +154,10 @@ def module_fingerprint(mod: Any, with_functions: bool, budget: float = 8.0) -> d
             sp_ = catalogue.spec(fn)
             if not (sp_["decorated"] or fname.startswith("calculate_")):
                 continue
-            params, why = A.plan(fn)
+            params, why = A.plan(fn, mod)
             if why:
+                continue
+            if any(p.kind == "free" for p in params) and not A.resolve_free(fn, params, mod):
                 continue
             try:
                 with time_limit(20):
